@@ -2,4 +2,5 @@
 //! independent of h3's code.
 pub mod frames;
 pub mod qpack;
+pub mod qpack_dyn;
 pub mod varint;
